@@ -668,6 +668,9 @@ def run(ck):
 
     ck.repo = canonical(ck.repo, ["tornado/httpserver.py", "tornado/netutil.py", "tornado/httputil.py"], keep_names=('_DEFAULT_AUTOESCAPE',))
 
+    from ..x_valuewalk import expand_result_variable
+
+    ck.repo = expand_result_variable(ck.repo, "tornado/netutil.py", ['is_valid_ip'])
     guard_obligations(ck, ['_apply_xheaders', '_unapply_xheaders', '_cleanup', '_parse_body', '_find_groups'])
     ck.rule("C32.ip-validated", "_apply_xheaders stores into self.remote_ip only the local that netutil.is_valid_ip accepted (true branch dominates, no rebinding since)")
     ck.rule("C32.proto-validated", "_apply_xheaders stores into self.protocol only a local known to be in a literal set within {http, https}")
